@@ -80,4 +80,33 @@ def closedSimpleB (T : List Tri) : Bool :=
 
 def nonDegB (T : List Tri) : Bool := T.all (fun t => t.1 != t.2.1 && t.2.1 != t.2.2 && t.2.2 != t.1)
 
+/-- nodes joined to `a` by an edge -/
+def neighbours (T : List Tri) (a : Nat) : List Nat :=
+  ((he T).filterMap (fun e => if e.1 == a then some e.2 else if e.2 == a then some e.1 else none)).eraseDups
+
+/-- executable form of the link condition (`LinkCond`): the common neighbours of `a` and `b` are exactly the two
+    opposite nodes, which are different -/
+def linkCondB (T : List Tri) (a b : Nat) : Bool :=
+  match findDir T a b, findDir T b a with
+  | some t1, some t2 =>
+    let c := opp t1 a b
+    let d := opp t2 b a
+    c != d && ((neighbours T a).filter (fun x => (neighbours T b).contains x)).all (fun x => x == c || x == d)
+  | _, _ => false
+
+/-- executable form of `SwapGuard` -/
+def swapGuardB (T : List Tri) (a b : Nat) : Bool :=
+  match findDir T a b, findDir T b a with
+  | some t1, some t2 =>
+    let c := opp t1 a b
+    let d := opp t2 b a
+    c != d && !((neighbours T c).contains d)
+  | _, _ => true
+
+/-- executable form of the guard of an enabled split -/
+def splitGuardB (T : List Tri) (a b : Nat) : Bool :=
+  match findDir T a b, findDir T b a with
+  | some t1, some t2 => opp t1 a b != opp t2 b a
+  | _, _ => true
+
 end Simu.Surface
